@@ -582,6 +582,8 @@ fn dbg_case(cj: &Value) { if std::env::var("ZV_C19_DEBUG").is_ok() { let s = cj.
 fn fnv64(b: &[u8], mut h: u64) -> u64 { for x in b { h ^= *x as u64; h = h.wrapping_mul(0x100000001b3); } h }
 
 impl Ctx {
+    /// Coq cases of the first generation (images, encodings, single-write protocol): they keep their own budget
+    fn old_used(&self) -> usize { self.shards.len() - (self.n_zo + 2 * self.n_zosave + self.n_row + self.n_plain + self.n_mvops + self.n_mmio) }
     fn fresh_dir(&mut self, tag: &str) -> String {
         self.seq += 1;
         let d = format!("{}/{}{}", self.root, tag, self.seq);
@@ -749,7 +751,7 @@ fn coq_bytes_list(xs: &[Vec<u8>]) -> String { format!("[{}]", xs.iter().map(|b| 
 /// numbered 1 and the temporary file 2 and the writes that build the temporary file merged into one, must be the
 /// modelled atomic-replace sequence.  Anything of another shape is emitted as traced.
 fn protocol_case(cx: &mut Ctx, seg: &[Op], main: &str, what: &str) {
-    if cx.proto >= 160 || cx.shards.len() >= cx.budget { return; }
+    if cx.proto >= 160 || cx.old_used() >= cx.budget { return; }
     let mut d = Disk::new();
     for op in seg { apply(&mut d, op); }
     let img = match d.get(main) { Some(b) if b.len() <= 1400 => b.clone(), _ => return };
@@ -807,6 +809,8 @@ fn mv_case<T: El>(cx: &mut Ctx, ic: usize, growth: f64, sow: bool, ops: &[Vec<u6
     let mut last_sync: Option<usize> = None;
     let mut problem: Option<String> = None;
     let mut sync_segs: Vec<(usize, usize)> = vec![];
+    let mut obs: Vec<[u64; 3]> = vec![];          // len, capacity, file length after each operation
+    let mut gtab: Vec<(u64, u64)> = vec![];       // capacity at the start of an operation -> (capacity as f64 * growth) as usize
     trace::start(&dir);
     let res = guarded(|| {
         let mut v = match MmapVec::<T>::create(&path, mk()) { Ok(v) => v, Err(e) => { problem = Some(format!("create failed: {}", e)); return; } };
@@ -814,6 +818,7 @@ fn mv_case<T: El>(cx: &mut Ctx, ic: usize, growth: f64, sow: bool, ops: &[Vec<u6
         for (k, op) in ops.iter().enumerate() {
             let a = op.get(1).copied().unwrap_or(0);
             let b = op.get(2).copied().unwrap_or(0);
+            { let c = v.capacity() as u64; if !gtab.iter().any(|g| g.0 == c) { gtab.push((c, (c as f64 * growth) as usize as u64)); } }
             let rr: Result<(), String> = match op.first().copied().unwrap_or(99) {
                 0 => v.push(T::from(a)).map(|_| shadow.push(a & mask)).map_err(|e| e.to_string()),
                 1 => { let g = v.pop().map(|x| x.to()); let w = shadow.pop(); if g == w { Ok(()) } else { Err(format!("pop = {:?}, a Vec gives {:?}", g, w)) } }
@@ -843,6 +848,7 @@ fn mv_case<T: El>(cx: &mut Ctx, ic: usize, growth: f64, sow: bool, ops: &[Vec<u6
             if v.len() != shadow.len() { problem = Some(format!("op {} {:?}: len {} but a Vec holds {}", k, op, v.len(), shadow.len())); return; }
             if let Some(&w) = shadow.last() { if v.get(shadow.len() - 1).map(|x| x.to()) != Some(w) { problem = Some(format!("op {} {:?}: last element differs in the live vector", k, op)); return; } }
             states.push(mv_state(&shadow)); marks.push(trace::len());
+            obs.push([v.len() as u64, v.capacity() as u64, std::fs::metadata(&path).map(|m| m.len()).unwrap_or(u64::MAX)]);
         }
         drop(v);
     });
@@ -872,6 +878,23 @@ fn mv_case<T: El>(cx: &mut Ctx, ic: usize, growth: f64, sow: bool, ops: &[Vec<u6
         }
     }
     for (a, b) in sync_segs { if b <= tr.len() && a < b { protocol_case(cx, &tr[a..b], "v.bin", "MmapVec::sync"); } }
+    // correspondence of the operation state machine: header fields and file length after every operation, the elements at the end
+    {
+        let vals = |count: u64, start: u64| -> String { coq_n_list((0..count).map(|i| (start.wrapping_add(i) & mask) as u128)) };
+        let volume: u64 = ops.iter().map(|o| match o[0] { 8 | 9 | 12 => o[1], 7 => o[1], _ => 1 }).sum::<u64>() + shadow.len() as u64;
+        if obs.len() == ops.len() && volume <= 700 && cx.n_mvops < if cx.thorough { 900 } else { 150 } && cx.coq_seen.insert(fnv64(cj.to_string().as_bytes(), 0x4d76)) {
+            let terms: Vec<String> = ops.iter().map(|o| { let a = o.get(1).copied().unwrap_or(0); let b = o.get(2).copied().unwrap_or(0); match o[0] {
+                0 => format!("OPush {}", a & mask), 1 => "OPop".into(), 2 => format!("OSet {} {}", a, b & mask), 3 => format!("OTruncate {}", a), 4 => "OClear".into(),
+                5 => format!("OReserve {}", a), 6 => "OShrink".into(), 7 => format!("OResize {} {}", a, b & mask), 8 => format!("OExtend {} {}", a, vals(a, b)),
+                9 => format!("OBulk {}", vals(a, b)), 10 => "OSync".into(), 11 => "OReopen".into(), 12 => format!("OCopyFrom {}", vals(a, b)), _ => "OSync".into() } }).collect();
+            cx.n_mvops += 1;
+            cx.shards.push(format!("(XMvOps {} {} {} [{}] [{}] [{}] {})", es, ic, coq_bool(sow),
+                                   gtab.iter().map(|g| format!("({}, {})", g.0, g.1)).collect::<Vec<_>>().join("; "), terms.join("; "),
+                                   obs.iter().map(|o| format!("[{}; {}; {}]", o[0], o[1], o[2])).collect::<Vec<_>>().join("; "),
+                                   coq_n_list(shadow.iter().map(|&x| x as u128))),
+                           json!({"cell": "mmapvec_ops", "es": es, "ic": ic, "growth": growth, "sync_on_write": sow, "ops": ops}));
+        }
+    }
     // correspondence cases: small final images and a few damaged ones, with what the real reader saw
     if let Some(fin) = fin {
         if let Some(f) = fin.get("v.bin") {
@@ -885,7 +908,7 @@ fn mv_case<T: El>(cx: &mut Ctx, ic: usize, growth: f64, sow: bool, ops: &[Vec<u6
 }
 
 fn mv_coq_case(cx: &mut Ctx, es: usize, img: &[u8]) {
-    if img.len() > 1400 || cx.shards.len() >= cx.budget || cx.n_mv * 2 >= cx.budget { return; }
+    if img.len() > 1400 || cx.old_used() >= cx.budget || cx.n_mv * 2 >= cx.budget { return; }
     let h = fnv64(img, es as u64);
     if !cx.coq_seen.insert(h) { return; }
     cx.n_mv += 1;
@@ -1057,10 +1080,22 @@ fn reorder_case(cx: &mut Ctx, builds: &[Value], exhaustive: bool) {
     if let Err(w) = tracer_in_sync(&dir, &sim) { panic!("C19 tracer out of sync with the file system:{}", w); }
     let none = |_: &Value, _: &str, _: &str| -> Option<&'static str> { None };
     for (a, b) in &build_segs { if *b <= tr.len() && a < b { protocol_case(cx, &tr[*a..*b], "m.bin", "ZReorderMapBuilder::finish"); } }
+    // the builder's writes: header, every flush of the 4096-byte buffer, the rest in finish() - as the model refines them
+    if let (Some((a, b)), true) = (build_segs.last().copied(), build_segs.len() == builds.len()) {
+        let seg = &tr[a..b.min(tr.len())];
+        let bytes: usize = seg.iter().map(|o| if let Op::Write { data, .. } = o { data.len() } else { 0 }).sum();
+        let big = bytes > 1300;
+        let room = if big { cx.n_row_big < if cx.thorough { 40 } else { 9 } } else { cx.n_row - cx.n_row_big < if cx.thorough { 300 } else { 24 } };
+        if room && bytes <= 30000 && cx.coq_seen.insert(fnv64(cj.to_string().as_bytes(), 0x526f57)) {
+            cx.n_row += 1; if big { cx.n_row_big += 1; }
+            cx.shards.push(format!("(XRoW {} {} [{}])", coq_n_list(last.0.iter().map(|&v| v as u128)), coq_bool(last.1), seg.iter().map(|o| fop_term(o, "m.bin")).collect::<Vec<_>>().join("; ")),
+                           json!({"cell": "reorder_writes", "values": last.0, "neg": last.1}));
+        }
+    }
     let fin_state = states.last().cloned();
     let fin = judge_trace(cx, cell, "reorder", &none, &cj, &json!({}), "m.bin", false, &tr, &marks, &states, fin_state.as_ref(), &[16, 21], &mut r, exhaustive, None);
     if let Some(f) = fin.as_ref().and_then(|d| d.get("m.bin")) {
-        if f.len() <= 1200 && cx.shards.len() < cx.budget {
+        if f.len() <= 1200 && cx.old_used() < cx.budget {
             // the builder emits the modelled format; the reader agrees with the model on the file and on damaged copies
             cx.shards.push(format!("(XOld (CRoEnc {} {} {}))", coq_n_list(last.0.iter().map(|&v| v as u128)), coq_bool(last.1), coq_bytes(f)),
                            json!({"cell": "reorder_encode", "values": last.0, "neg": last.1}));
@@ -1073,7 +1108,7 @@ fn reorder_case(cx: &mut Ctx, builds: &[Value], exhaustive: bool) {
     let _ = std::fs::remove_dir_all(&dir);
 }
 fn reorder_coq_case(cx: &mut Ctx, img: &[u8]) {
-    if img.len() > 1200 || cx.shards.len() >= cx.budget || cx.n_ro * 3 >= cx.budget { return; }
+    if img.len() > 1200 || cx.old_used() >= cx.budget || cx.n_ro * 3 >= cx.budget { return; }
     if !cx.coq_seen.insert(fnv64(img, 0x77)) { return; }
     cx.n_ro += 1;
     let mut d = Disk::new(); d.insert("m.bin".into(), img.to_vec());
@@ -1293,14 +1328,14 @@ fn mmio_case(cx: &mut Ctx, chunks: &[String], initial: usize, exhaustive: bool) 
 fn run_one(cx: &mut Ctx, c: &Value) {
     let ex = c["exhaustive"].as_bool().unwrap_or(false);
     match c["cell"].as_str() {
-        Some("mmapvec") => {
+        Some("mmapvec") | Some("mmapvec_ops") => {
             let ops: Vec<Vec<u64>> = c["ops"].as_array().map(|a| a.iter().map(|o| o.as_array().map(|x| x.iter().map(|y| y.as_u64().unwrap_or(0)).collect()).unwrap_or_default()).collect()).unwrap_or_default();
             run_mv(cx, c["es"].as_u64().unwrap_or(8) as usize, c["ic"].as_u64().unwrap_or(0) as usize, c["growth"].as_f64().unwrap_or(1.618), c["sync_on_write"].as_bool().unwrap_or(false), &ops, ex);
         }
         Some("mmapvec_image") => { let im = unhex(c["image"].as_str().unwrap_or("")); cx.coq_seen.clear(); mv_coq_case(cx, c["es"].as_u64().unwrap_or(8) as usize, &im); }
         Some("reorder_image") => { let im = unhex(c["image"].as_str().unwrap_or("")); cx.coq_seen.clear(); reorder_coq_case(cx, &im); }
         Some("plain") => plain_case(cx, c["ops"].as_array().map(|a| a.as_slice()).unwrap_or(&[]), ex),
-        Some("reorder") | Some("reorder_encode") => {
+        Some("reorder") | Some("reorder_encode") | Some("reorder_writes") => {
             let b = if c.get("builds").is_some() { c["builds"].as_array().cloned().unwrap_or_default() } else { vec![json!({"values": c["values"], "neg": c["neg"]})] };
             reorder_case(cx, &b, ex)
         }
